@@ -927,7 +927,7 @@ def handleMore (op : String) (args : List String) (rhs : String) : Option Verdic
   | _, _ => none
 
 
-def handle (op : String) (args : List String) (rhs : String) : Verdict :=
+def handle0 (op : String) (args : List String) (rhs : String) : Verdict :=
   match handleMore op args rhs with
   | some v => v
   | none =>
@@ -937,5 +937,29 @@ def handle (op : String) (args : List String) (rhs : String) : Verdict :=
   else if op.startsWith "ar." || op.startsWith "crt." then handleArith op args rhs
   else if op.startsWith "N." || op.startsWith "Z." || op.startsWith "Q." || op.startsWith "Zn." then handleNum op args rhs
   else handleMisc op args rhs
+
+/-- the `expected=… observed=…` pair of a `classify`/`spec` message -/
+def expectedOf (why : String) : Option String :=
+  match why.splitOn "expected=" with
+  | [_, rest] => (rest.splitOn " observed=").head?
+  | _ => none
+
+/-- "reused output" lines (`r!<op>`: every output receiver already held a longer random value): the *values*
+must be those of a fresh receiver; the announced length of a reused receiver is a convention that is not
+claimed, so a difference in the `/<len>` suffixes alone is accepted.  A wrong value is reported under the
+key `reused-output` (one root cause: the receiver's previous contents leak into the result). -/
+def handle (op : String) (args : List String) (rhs : String) : Verdict :=
+  if op.startsWith "r!" then
+    let norm (t : String) : String := let u := stripCaps t; if u.startsWith "ok:" then (u.drop 3).toString else u
+    let sameValues (model : String) : Bool := norm model == norm rhs
+    match handle0 (op.drop 2).toString args rhs with
+    | .ok => .ok
+    | .diff model => if sameValues model then .ok else .bad "reused-output" ("expected=" ++ model ++ " observed=" ++ rhs)
+    | .bad key why =>
+      match expectedOf why with
+      | some model => if sameValues model then .ok else .bad "reused-output" ("(" ++ key ++ ") " ++ why)
+      | none => .bad "reused-output" ("(" ++ key ++ ") " ++ why)
+    | .unsupported w => .unsupported w
+  else handle0 op args rhs
 
 end BronVerif.Drive.C17
